@@ -621,6 +621,11 @@ func TestC19(t *testing.T) {
 	c.Floor("direct-member_rejected_before_delay", 80)
 	c.Floor("direct-nonmember_accepted_after_both_delays", 80)
 	c.Floor("direct-nonmember_rejected_before_delay", 80)
+	for _, k := range []string{"time-1", "time=0", "time+1", "height-1", "height=0", "height+1"} {
+		c.Floor("relay_point_"+k, 7)
+		c.Floor("direct-member_point_"+k, 35)
+		c.Floor("direct-nonmember_point_"+k, 35)
+	}
 	lim := &sigLimiter{c: c}
 
 	batches := c.N(24, 60)
